@@ -1094,3 +1094,98 @@ func H_C02_sender_source() {
 	vAssert(err != nil, "a sender whose source file shrank or vanished after the scan reports failure")
 	vCover("C02 sender-source: failure reported")
 }
+
+// ---------------------------------------------------------------------------------------------
+// C17 (file level, whole sender): three files (5, 0 and 4 bytes) on two file slots / data streams. The
+// receiver's acknowledgements for all three are already waiting on the control stream. Asserted on what
+// the sender wrote: every file is begun exactly once and ended exactly once, its FileBegin precedes its
+// FileEnd, and every chunk of every file is on a data stream exactly once.
+func H_C17_files() {
+	dir := vTempDir()
+	sizes := []int{5, 0, 4}
+	names := []string{"a", "b", "c"}
+	var items []manifest.FileItem
+	srcs := make([][]byte, 3)
+	total := int64(0)
+	for i := range names {
+		srcs[i] = vBytes("src"+names[i], sizes[i])
+		vTempFile("src/"+names[i], srcs[i])
+		items = append(items, manifest.FileItem{RelPath: names[i], Size: int64(sizes[i]), ID: "id" + names[i]})
+		total += int64(sizes[i])
+	}
+	m := manifest.Manifest{Root: "src", Items: items, TotalBytes: total, FileCount: 3}
+	acks := &vMemStream{}
+	keys := make([]uint64, 3)
+	for i := range items {
+		keys[i] = fileKeyForItem(items[i])
+		_ = writeFileDone(acks, FileDone{StreamID: keys[i], OK: true})
+	}
+	vSenderAcks = acks.buf
+	vSenderPeerSilent = true
+	conn := &vSendConn{}
+	err := SendManifestMultiStream(vContext("ctx", false), conn, dir+"/src", m, Options{ChunkSize: 4, ParallelFiles: 2})
+	if err != nil {
+		vCover("C17 files: failure")
+		return
+	}
+	begun, ended := make([]int, 3), make([]int, 3)
+	rep := &vMemStream{buf: conn.streams[0].out}
+	_, herr := readControlHeader(rep)
+	vAssert(herr == nil, "the control stream starts with the header")
+	for {
+		typ, msg, rerr := readControlMessage(rep)
+		if rerr != nil {
+			break
+		}
+		for i := range keys {
+			switch typ {
+			case controlTypeFileBegin:
+				if msg.(FileBegin).StreamID == keys[i] {
+					vAssert(ended[i] == 0, "a file is begun before it is ended")
+					begun[i]++
+				}
+			case controlTypeFileEnd:
+				if msg.(FileEnd).StreamID == keys[i] {
+					vAssert(begun[i] == 1, "a file is ended after it was begun")
+					ended[i]++
+				}
+			}
+		}
+	}
+	for i := range keys {
+		vAssert(begun[i] == 1, "every file of the manifest is begun exactly once")
+		vAssert(ended[i] == 1, "every file is ended exactly once")
+	}
+	seen := make([][]bool, 3)
+	for i := range seen {
+		seen[i] = make([]bool, (sizes[i]+3)/4)
+	}
+	for _, st := range conn.streams[1:] {
+		data := st.out
+		pos := 0
+		for pos < len(data) {
+			vAssert(pos+dataChunkHeaderLen <= len(data), "the data streams hold whole frames")
+			k := binary.BigEndian.Uint64(data[pos : pos+8])
+			idx := int(binary.BigEndian.Uint32(data[pos+8 : pos+12]))
+			ln := int(binary.BigEndian.Uint32(data[pos+12 : pos+16]))
+			fi := -1
+			for i := range keys {
+				if keys[i] == k {
+					fi = i
+				}
+			}
+			vAssert(fi >= 0 && idx < len(seen[fi]), "a frame names a file of the manifest and a chunk of it")
+			vAssert(!seen[fi][idx], "every chunk is sent once")
+			seen[fi][idx] = true
+			vAssert(pos+dataChunkHeaderLen+ln <= len(data), "a frame's payload is complete")
+			vAssert(vBytesEq(data[pos+dataChunkHeaderLen:pos+dataChunkHeaderLen+ln], srcs[fi][idx*4:idx*4+ln]), "a frame's payload is the file's bytes at index x chunkSize")
+			pos += dataChunkHeaderLen + ln
+		}
+	}
+	for i := range seen {
+		for _, s := range seen[i] {
+			vAssert(s, "every chunk of every file is sent")
+		}
+	}
+	vCover("C17 files: success")
+}
